@@ -36,7 +36,7 @@ SAMPLER_UNITS = ['update_shell_info', 'sample_shell', 'add_bound',
                  'add_samples', 'setter', 'run[verbose=False,file=False]',
                  'run[verbose=False,file=True]', 'run[verbose=True,file=False]',
                  'run[verbose=True,file=True]']
-UNITS = SAMPLER_UNITS + ['log_z', 'posterior_weights']
+UNITS = SAMPLER_UNITS + ['log_z', 'posterior_weights', 'n_eff', 'eta']
 BRANCH_COVERED_FUNCTIONS = tuple(SQ + f for f in (
     'update_shell_info', 'add_bound', 'add_samples',
     'discard_exploration.setter', 'run', 'log_z'))
@@ -112,10 +112,73 @@ def build(cx, fe, tier, info, only=None):
         verify_block(ex, SQ + 'posterior', _c03.select_rows_block, env_rows,
                      post_rows, tag='[weights]')
         fn_entry(fe, info, SQ + 'posterior', status='block')
+    if only in (None, 'n_eff', 'eta'):
+        from pyvc.npmodel import f_exp, f_log
+        from pyvc.lib import array_fn
+        from pyvc.arrays import zv
+
+        def env_acc(ex_, st):
+            self_ = M.make_sampler(ex_, st)
+            st.env = dict(self=self_)
+            for (nm, f) in M.inv_P1(View(ex_, st)):
+                st.assume(f)
+            return dict(self=self_)
+
+        def nop(clause, goal):
+            return None
+    if only in (None, 'n_eff'):
+        def post_ne(Vo, Vn, res):
+            st = Vn.st
+            ne, sll, slv = S(Vn, 'shell_n_eff'), S(Vn, 'shell_log_l'), \
+                S(Vn, 'shell_log_v')
+            none = A.count(st, Arr(ne.n, lambda i: ne.at(i) == 0, 'bool')) \
+                == ne.n
+            sel = Arr(ne.n, lambda i: ne.at(i) > 0, 'bool')
+            z = Arr(sll.n, lambda i: sll.at(i) + slv.at(i), 'real')
+            zmax = array_fn(st, 'nanmax', z, 'real')
+            w = Arr(z.n, lambda i: f_exp(z.at(i) - zmax), 'real')
+            ws = A.filter_mask(st, w, sel, nop)
+            nes = A.filter_mask(st, A.to_real(ne) if ne.k == 'int' else ne,
+                                sel, nop)
+            w2 = Arr(ws.n, lambda j: ws.at(j) * ws.at(j) / nes.at(j), 'real')
+            sw = array_fn(st, 'sum_real', ws, 'real')
+            sw2 = array_fn(st, 'sum_real', w2, 'real')
+            r = zv(res, 'real')
+            return [('n_eff_is_zero_without_informative_shells',
+                     z3.Implies(none, r == 0)),
+                    ('n_eff_is_kish_size_of_the_shell_weights', z3.Implies(
+                        z3.Not(none), r == sw * sw / sw2))]
+        verify_function(ex, SQ + 'n_eff', FnContract(SQ + 'n_eff',
+                                                     post=post_ne), env_acc)
+        fn_entry(fe, info, SQ + 'n_eff')
+    if only in (None, 'eta'):
+        def post_eta(Vo, Vn, res):
+            st = Vn.st
+            ne, sn, sll, slv = S(Vn, 'shell_n_eff'), S(Vn, 'shell_n'), \
+                S(Vn, 'shell_log_l'), S(Vn, 'shell_log_v')
+            sel = Arr(sll.n, lambda i: z3.Not(sll.at(i) == NAN), 'bool')
+            z = Arr(sll.n, lambda i: sll.at(i) + slv.at(i), 'real')
+            ner = A.to_real(ne) if ne.k == 'int' else ne
+            snr = A.to_real(sn) if sn.k == 'int' else sn
+            eta = Arr(ne.n, lambda i: ner.at(i) / snr.at(i), 'real')
+            zs = A.filter_mask(st, z, sel, nop)
+            es = A.filter_mask(st, eta, sel, nop)
+            y = Arr(zs.n, lambda j: zs.at(j) - z3.RealVal('0.5') *
+                    f_log(es.at(j)), 'real')
+            return [('eta_is_the_squared_ratio_of_the_two_shell_sums',
+                     zv(res, 'real') == f_exp(2 * lse_term(st, zs) -
+                                              2 * lse_term(st, y)))]
+        verify_function(ex, SQ + 'eta', FnContract(SQ + 'eta', post=post_eta),
+                        env_acc)
+        fn_entry(fe, info, SQ + 'eta')
     info['assumptions'] = [
-        'C02: n_eff / eta formulas: the per-shell Kish identity and the '
-        'shift-invariance of the ratio are mathematical lemmas (DESIGN.md), '
-        'their bodies are verified read-only (C11) but not against a spec',
+        'C02: n_eff / eta: the bodies are proved equal to the shell-level '
+        'formulas (Kish size of the shell weights with per-shell sizes; '
+        'squared ratio of the two shell sums); that these equal the '
+        'sample-level Kish size follows from the per-shell identity S1 '
+        '(n_eff_s = (sum w)^2 / sum w^2, proved for update_shell_info) by '
+        'splitting the sums over shells: a mathematical lemma, not '
+        'machine-checked',
         'C02: IEEE -inf / nan are distinguished constants; log/exp/logsumexp '
         'uninterpreted (term equalities)',
     ]
